@@ -39,6 +39,10 @@ type BFSOpts struct {
 	Shard, NShards int
 	// AfterEach, if set, is called with every newly reached state's history.
 	Closure func(w World, s *Sched)
+	// Feature, if set, abstracts a state; the first (shortest, default
+	// environment answers only) history reaching each distinct feature value
+	// is returned in ExploreResult.FeatureRoots (used to pick non-initial roots).
+	Feature func(w World) string
 }
 
 // DebugKeys, if set, is called for every new state (development aid).
@@ -66,6 +70,7 @@ func BFS(o BFSOpts, build func(s *Sched) World) *ExploreResult {
 	nontriv := map[string]struct{}{}
 
 	type runOut struct {
+		feature  string
 		key      string
 		enabled  []string
 		poisoned bool
@@ -93,6 +98,9 @@ func BFS(o BFSOpts, build func(s *Sched) World) *ExploreResult {
 				r.key = w.Key()
 				r.enabled = w.Ops()
 				r.npts = len(s.Points)
+				if o.Feature != nil {
+					r.feature = o.Feature(w)
+				}
 				if o.Closure != nil {
 					o.Closure(w, s)
 					r.viol = append(r.viol, w.Take()...)
@@ -208,6 +216,14 @@ depthLoop:
 						continue
 					}
 					seen[r.key] = struct{}{}
+					if o.Feature != nil && vi == 0 && allZero(full) {
+						if res.FeatureRoots == nil {
+							res.FeatureRoots = map[string][]string{}
+						}
+						if _, ok := res.FeatureRoots[r.feature]; !ok {
+							res.FeatureRoots[r.feature] = ops
+						}
+					}
 					if DebugKeys != nil {
 						DebugKeys(r.key, ops, full)
 					}
@@ -253,4 +269,13 @@ func hashKey(k string) uint64 {
 		h *= 1099511628211
 	}
 	return h
+}
+
+func allZero(c []int) bool {
+	for _, x := range c {
+		if x != 0 {
+			return false
+		}
+	}
+	return true
 }
